@@ -295,3 +295,9 @@ def replay_intermediate_notes(trace, viol):
     """the two executions differ on a commit that is not the tip of the rewritten range"""
     return viol.get("class") == "notes_differ_on_lines_the_commit_adds" and \
         (trace.get("variant") or {}).get("env", {}).get("GIT_AI_VERIF_FLAGS") == "decline_fast_path"
+
+
+@predicate("checkpoint_races_commit")
+def checkpoint_races_commit(trace, viol):
+    """an agent's checkpoint that resolved the old HEAD as base while a wrapped commit moves the working log"""
+    return (trace.get("cfg") or {}).get("scenario") == "ckpt_vs_commit" and viol.get("monitor") == "sched.linearizable"
